@@ -88,6 +88,13 @@ func genIndex(r *rand.Rand, n int) int64 {
 
 func genHist(r *rand.Rand, id string, tier string, extremes bool) string {
 	nextLeaf = 0
+	if tier == "thorough" && !extremes {
+		// exhaustive first: every short history over a small alphabet (histenum.go), then random ones
+		if idx := caseIndex(id); idx < histEnumCount() {
+			r.Intn(2)
+			return histEnumCase(idx)
+		}
+	}
 	c := Cfg{Kind: []int{1, 2, 3, 4, 6}[r.Intn(5)]}
 	if r.Intn(2) == 0 {
 		c.Cap = 1 + r.Intn(6)
